@@ -263,7 +263,53 @@ def check_kernel(kernel: str, cell: str, M: int = 2, coord_cells: int = 50, seco
             res["cuts"] = res.get("cuts", 0) + 1
         if rr == z3.sat:
             m = sol.model()
-            vals = {str(x): L_model_float(m, I.emit(x)) for x in X[look]}
+            # prefer a witness that survives float32 evaluation: coordinates within a few cells and a clear improvement
+            alts_strong = []
+            for g, v in lv:
+                ve = [I.emit(c) for c in v]
+                for mm in itertools.product(range(-M, M + 1), repeat=3):
+                    if mm == (0, 0, 0):
+                        continue
+                    gv = [sum(B[j][i] * mm[j] for j in range(3)) for i in range(3)]
+                    alts_strong.append(z3.And(g, sum(2 * ve[i] * rv(gv[i]) for i in range(3)) + rv(sum(t * t for t in gv)) < -rv(F(1, 20)), *[U[i] == ve[i] + rv(gv[i]) for i in range(3)]))
+            defs = I.mono_defs()            # exact products for the named monomials: a model of these is a genuine point of the path
+            if cell not in ORTHO:
+                defs = defs + [U[0] * U[0] + U[1] * U[1] + U[2] * U[2] < rv(hw * hw)]       # the premise itself (non-linear), not its cutting planes
+            small = [z3.And(I.emit(x) >= -4 * Lmax, I.emit(x) <= 4 * Lmax) for fr in X for x in fr if L.conc(x) is None]
+            # refinement (CEGAR): the abstract model fixes the integer unknowns (rounding results); with those fixed the exact
+            # query -- products of unknowns as real products -- is a small non-linear REAL problem.  Unsat => block that integer
+            # assignment and ask the abstraction for another one.
+            ints = [z3.Int(n) for n in sorted(I.ints)]
+            genuine = None
+            for pre in (small, []):
+                sol.push()
+                sol.add(z3.Or(alts_strong), *pre)
+                for it in range(25):
+                    t = time.time()
+                    r3 = sol.check()
+                    res["solver_s"] += time.time() - t
+                    res["queries"] += 1
+                    if r3 != z3.sat:
+                        break
+                    ma = sol.model()
+                    kv = [(k, ma.eval(k, model_completion=True)) for k in ints]
+                    s2 = z3.Solver()
+                    s2.set("timeout", 20000)
+                    s2.add(*sol.assertions(), *defs, *[k == v for k, v in kv])
+                    t = time.time()
+                    r4 = s2.check()
+                    res["solver_s"] += time.time() - t
+                    res["queries"] += 1
+                    res.setdefault("refine", []).append(str(r4))
+                    if r4 == z3.sat:
+                        genuine = s2.model()
+                        break
+                    sol.add(z3.Or([k != v for k, v in kv]) if kv else z3.BoolVal(False))
+                sol.pop()
+                if genuine is not None:
+                    m = genuine
+                    break
+            vals = {str(x): L_model_float(m, I.emit(x)) for fr in X for x in fr if L.conc(x) is None}
             bad = bad or ("b_minimum_image", "an image within +-M cells is shorter than the reported displacement", vals)
         elif rr != z3.unsat:
             unknown.append("b_minimum_image")
@@ -277,7 +323,7 @@ def check_kernel(kernel: str, cell: str, M: int = 2, coord_cells: int = 50, seco
     res["ir_instructions"] = mod.ninsns
     if bad:
         name, why, vals = bad
-        rep, script = replay(kernel, cell, vals) if vals else (True, "# structural failure: " + why + "\nimport sys; sys.exit(1)\n")
+        rep, script = replay(kernel, cell, vals, cell0, second_frame) if vals else (True, "# structural failure: " + why + "\nimport sys; sys.exit(1)\n")
         return {**res, "status": "cex", "detail": why, "cex": {"goal": name, "key": name, "inputs": vals, "reproduced": rep, "replay_script": script}}
     if unknown:
         return {**res, "status": "inconclusive", "detail": "solver unknown: " + ",".join(unknown)}
@@ -295,27 +341,55 @@ def L_model_float(m, e):
         return float(v.as_decimal(12).rstrip("?"))
 
 
-def replay(kernel, cell, vals):
-    """run the same kernel natively (fresh g++ build of the current source) and through the installed extension via
-    md.compute_distances, compare with a brute-force minimum over +-4 cells in float64"""
-    cellv = CELLS[cell]
-    x = [vals.get(f"Poly(1*x0_{i})", vals.get(f"x0_{i}", 0.0)) for i in range(6)]
-    script = f'''
-import sys, itertools, numpy as np
-cell = np.array({[[float(v) for v in r] for r in cellv]!r}); x = np.array({x!r}, dtype=np.float32).reshape(1, 2, 3)
-import mdtraj as md
-from mdtraj.utils.unitcell import box_vectors_to_lengths_and_angles as bv
-t = md.Trajectory(x, None); l = bv(*cell); t.unitcell_lengths = np.array([l[:3]]); t.unitcell_angles = np.array([l[3:]])
-d = md.compute_distances(t, [[0, 1]], periodic=True, opt=True)[0, 0]
-r = x[0, 1].astype(float) - x[0, 0].astype(float)
-best = min(np.linalg.norm(r + np.array(m) @ cell) for m in itertools.product(range(-4, 5), repeat=3))
+REPLAY = '''
+import sys, ctypes, itertools, tempfile, subprocess, numpy as np, os
+REPO = os.environ.get("VT_REPO", "/repo"); G = REPO + "/mdtraj/geometry"
+d = tempfile.mkdtemp(); so = d + "/k.so"
+subprocess.check_call(["g++", "-O2", "-shared", "-fPIC", "-D__NO_INTRINSICS", "-I" + G + "/include", "-I" + G + "/src/kernels", G + "/src/geometry.cpp", "-o", so])
+lib = ctypes.CDLL(so)
+kernel, look, is_t, ortho = {kernel!r}, {look}, {is_t}, {ortho}
+cells = np.array({cells!r}, dtype=np.float64)              # one (a;b;c) matrix per frame
+x = np.array({frames!r}, dtype=np.float32).reshape(len(cells), 2, 3)
+fp = lambda a: a.ctypes.data_as(ctypes.c_void_p)
+nf = 1 if is_t else len(cells)
+dout = np.zeros(nf, dtype=np.float32); disp = np.zeros((nf, 3), dtype=np.float32)
+box = np.ascontiguousarray(np.transpose(cells, (0, 2, 1)), dtype=np.float32)
+pairs = np.array([0, 1], dtype=np.int32)
+args = [fp(np.ascontiguousarray(x)), fp(pairs)] + ([fp(np.array([0, 1], dtype=np.int32))] if is_t else []) + [fp(box), fp(dout), fp(disp), nf, 2, 1]
+getattr(lib, kernel)(*args)
+if is_t:
+    r = x[1, 1].astype(float) - x[0, 0].astype(float); cell = cells[0]; got_d, got_v = dout[0], disp[0]
+else:
+    r = x[look, 1].astype(float) - x[look, 0].astype(float); cell = cells[look]; got_d, got_v = dout[look], disp[look]
+cands = [r + np.array(m) @ cell for m in itertools.product(range(-60, 61), repeat=1)] if False else None
+n0 = np.round(np.linalg.solve(cell.T, -r))                  # nearest lattice point in fractional coordinates, then a +-4 search around it
+best = min(np.linalg.norm(r + (n0 + np.array(m)) @ cell) for m in itertools.product(range(-4, 5), repeat=3))
 w = abs(np.linalg.det(cell)) / max(np.linalg.norm(np.cross(cell[(i + 1) % 3], cell[(i + 2) % 3])) for i in range(3))
-print("kernel {kernel} cell {cell}: reported", d, "brute-force minimum", best, "half width", w / 2)
-sys.exit(1 if (d - best > 1e-4 and best < w / 2) or best - d > 1e-4 else 0)
+lat = np.linalg.solve(cell.T, got_v.astype(float) - r)      # reported displacement - plain difference, in units of the cell vectors
+scale = max(1.0, np.abs(r).max())
+print("kernel", kernel, ": reported", got_d, "|v|", np.linalg.norm(got_v), "brute-force minimum", best, "half width", w / 2, "lattice coefficients", lat)
+bad = (got_d - best > 1e-4 * scale and (ortho or best < 0.99 * w / 2)) or best - got_d > 1e-4 * scale or abs(np.linalg.norm(got_v) - got_d) > 1e-4 * scale or np.abs(lat - np.round(lat)).max() > 1e-3 * scale
+sys.exit(1 if bad else 0)
 '''
+
+
+def replay(kernel, cell, vals, cell0=None, second_frame=False):
+    """run the same kernel natively (fresh g++ build of the CURRENT source, same argument layout as the symbolic run) and compare with a
+    brute-force minimum over lattice images in float64"""
+    is_t = kernel.endswith("_t")
+    look = 1 if second_frame else 0
+    nfr = 2 if (is_t or second_frame) else 1
+    frames = []
+    for f in range(nfr):
+        if second_frame and f == 0:
+            frames.append([0.1, -0.3, 0.7, 1.2, 0.4, -0.9])
+        else:
+            frames.append([vals.get(f"Poly(1*x{f}_{i})", vals.get(f"x{f}_{i}", 0.0)) for i in range(6)])
+    cells = [[[float(v) for v in r] for r in (CELLS[cell0] if (cell0 and f == 0) else CELLS[cell])] for f in range(nfr)]
+    script = REPLAY.format(kernel=kernel, look=look, is_t=is_t, cells=cells, frames=frames, ortho=cell in ORTHO)
     import subprocess, sys as _s
     with tempfile.NamedTemporaryFile("w", suffix=".py", delete=False) as fh:
         fh.write(script)
-    r = subprocess.run([_s.executable, fh.name], capture_output=True, text=True)
+    r = subprocess.run([_s.executable, fh.name], capture_output=True, text=True, env=dict(os.environ, VT_REPO=str(REPO)))
     os.unlink(fh.name)
-    return r.returncode == 1, script
+    return r.returncode == 1, script + "\n# " + (r.stdout + r.stderr)[-400:].replace("\n", "\n# ")
